@@ -66,6 +66,18 @@ def sequences(tier):
             yield t
 
 
+def extra_instances():
+    """Between seeding and generating, the program creates further instances of the generation
+    classes (public constructors, non-default arguments) and does not use them to draw anything.
+    The values of fake() are a function of the seed and the schemas only."""
+    from d42.generation import Generator, RegexGenerator
+    r2 = Random()
+    rg = RegexGenerator(r2, alphabet={"digits": "0123456789abcdef", "word": "ab-", "letters": "ab~"},
+                        max_repeat=3)
+    Generator(Random(), rg)
+    Generator(r2, RegexGenerator(Random()))
+
+
 def main():
     """argv: <json list of seeds> <tier> <mode> [fwd|rev].  In mode 'digests' the seeds are run
     one after the other in this one process (so a later seed sees whatever an earlier one left
@@ -77,7 +89,7 @@ def main():
         rnd = Random()
         out = []
         seqs = list(enumerate(sequences(tier)))
-        if order == "rev":
+        if order.startswith("rev"):
             seqs.reverse()
         for k in seeds:
             digests, unstable = {}, []
@@ -90,6 +102,8 @@ def main():
 
                 def once():
                     rnd.set_seed(k)
+                    if order.endswith("+instances"):
+                        extra_instances()
                     return src([gen(i) for i in seq])
                 a = once()
                 if once() != a:
